@@ -120,7 +120,16 @@ Forward(e) == DSign(e.d[3]) = 1
 \* finite object, height fields: the ray starts on the object at (Hx, Hy) x maximum field
 OriginHeight(e) == /\ Small(DSub(e.o[1], DMul(e.Hx, e.F)), e.F, 50)
                    /\ Small(DSub(e.o[2], DMul(e.Hy, e.F)), e.F, 50)
-OnObjectPlane(e) == e.o[3] = e.zobj
+\* the ray starts on the object surface: the plane z = zobj, or (events that carry ocurved = TRUE)
+\* the sphere of radius Robj through the vertex (0, 0, zobj), on the cap next to the vertex:
+\*   x^2 + y^2 + s^2 = 2 Robj s,  s = o_z - zobj
+OnObjectPlane(e) ==
+  IF "ocurved" \in DOMAIN e /\ e.ocurved
+  THEN LET s == DSub(e.o[3], e.zobj)
+           r2 == DAdd(DSq(e.o[1]), DSq(e.o[2])) IN
+       /\ Small(DSub(DAdd(r2, DSq(s)), DMul(DAdd(e.Robj, e.Robj), s)), DSq(e.Robj), 40)
+       /\ DLe(DAbs(s), DAbs(e.Robj))
+  ELSE e.o[3] = e.zobj
 \* finite object, angular fields: the object point is where the line through the centre of the
 \* entrance pupil with slope (.., tan theta_y) meets the object plane
 OriginAngle(e) ==
